@@ -473,13 +473,84 @@ def discovered_scenarios() -> list[Scenario]:
     return [DiscoveredScenario(served=a, sibling=b, handle_sibling=h) for a in ('kex', 'kex+status') for b in ('sets', 'sets+status') for h in (False, True)]
 
 
+# ---- what daemons and timers accumulate: sibling handlers spawned by one event, each delivering its own patch -----------------------
+
+def _spawned_scenarios() -> list[Scenario]:
+    from kv.harness.change import ChangeScenario
+
+    class SpawnedPatchScenario(ChangeScenario):
+        """Timers and daemons of ONE object, spawned by the same event, each leaving through its `patch` kwarg the number of the invocation
+        (a field: status.p_<id>) and a counter bump (a transformation: status.c_<id>). On the server the field never goes back to an
+        older invocation's value (nothing already delivered is delivered again later), and every bump takes effect exactly once."""
+        name = 'c08-spawned'
+        prop = 'C08'
+
+        def check(self, env: Env) -> list[Violation]:
+            if env.end_reason in ('stall', 'livelock', 'step-budget', 'deadlock'):
+                return [self.viol(env, 'no-progress', f'execution ended with {env.end_reason}', end=env.end_reason)]
+            out = []
+            ids = [h['id'] for h in self.params['handlers'] if any('stamp' in str(x) for x in h.get('script', []))]
+            rets: dict[str, list[float]] = {i: [] for i in ids}
+            for t, k, p in env.obs:
+                if k == 'ret' and p['id'] in rets:
+                    rets[p['id']].append(t)
+            carved = self.carveouts(env)
+            for hid in ids:
+                seen_p, seen_c = -1, 0
+                for w in env.world.writes:
+                    if w['name'] != 'a' or w['post'] is None:
+                        continue
+                    st = w['post'].get('status') or {}
+                    pv, cv = st.get(f'p_{hid}'), int(st.get(f'c_{hid}') or 0)
+                    done_by_then = sum(1 for t in rets[hid] if t <= w['t'])
+                    if pv is not None and pv < seen_p:
+                        out.append(self.viol(env, 'delivered-again', f"t={w['t']}: status.p_{hid} went back from {seen_p} to {pv} (written by {w['actor']}): what an earlier "
+                                                                     f"invocation had accumulated was sent once more", clause='exactly-once', what='field'))
+                    if cv > done_by_then:
+                        out.append(self.viol(env, 'transformation-duplicated', f"t={w['t']}: status.c_{hid}={cv}, but only {done_by_then} invocation(s) of {hid} had ended "
+                                                                               f"(written by {w['actor']})", clause='exactly-once', what='bump'))
+                    seen_p = max(seen_p, pv if pv is not None else -1)
+                    seen_c = cv
+                obj = env.world.get(self.kind, 'ns', 'a')
+                # (a `time` deviation is a slow CPU: the clock moves while steps are still due - what has 'ended a second ago' may be undelivered)
+                if obj is not None and not carved and not env.owes() and env.end_reason == 'horizon' and not any(c.split(':')[0] == 'time' for _, c in env.deviations):
+                    ended = [t for t in rets[hid] if t < env.now - 1.0]     # delivered by now for sure
+                    mine = [r for r in env.world.requests if r.method == 'patch' and r.origin == f'runner of {hid}' and 'json-patch' in r.ctype]
+                    if mine and mine[-1].status == 422 and any(h['id'] == hid and h['on'] == 'timer' for h in self.params['handlers']):
+                        continue    # a timer's transformation that has just met a conflict travels with its NEXT run: carried, not lost
+                    st = obj.get('status') or {}
+                    if int(st.get(f'c_{hid}') or 0) < len(ended) or (ended and (st.get(f'p_{hid}') is None or st.get(f'p_{hid}') < len(ended) - 1)):
+                        # the structural pattern of a known defect: a DAEMON whose last delivery met a version conflict and which then ended -
+                        # nobody is left to carry its transformation forward (a timer delivers it with its next run)
+                        is_daemon = any(h['id'] == hid and h['on'] == 'daemon' for h in self.params['handlers'])
+                        own_json = [r for r in env.world.requests if r.method == 'patch' and r.origin == f'runner of {hid}' and 'json-patch' in r.ctype]
+                        pattern = 'daemon-ended-after-version-conflict' if is_daemon and own_json and own_json[-1].status == 422 \
+                            and int(st.get(f'c_{hid}') or 0) == len(ended) - 1 and st.get(f'p_{hid}') == len(ended) - 1 else 'other'
+                        out.append(self.viol(env, 'accumulated-lost', f"{len(ended)} invocation(s) of {hid} had ended a second before the horizon; the object says "
+                                                                      f"p={st.get(f'p_{hid}')} c={st.get(f'c_{hid}')}", clause='completely', pattern=pattern))
+            return out
+    globals()['SpawnedPatchScenario'] = SpawnedPatchScenario
+    st = {'persistence__consistency_timeout': 5.0}
+    out: list[Scenario] = []
+    for interval, dlen in ((2.0, 7.0), (3.0, 4.0), (2.0, 0.5)):
+        for order in (0, 1):
+            timer = dict(id='t1', on='timer', interval=interval, script=['ok+stamp'])
+            daemon = dict(id='d1', on='daemon', body='script', script=[f'ok+stamp~{dlen}'])
+            timer2 = dict(id='t2', on='timer', interval=interval + 1.0, script=['ok+stamp~0.5'])
+            for sibs in ([timer, daemon], [timer, timer2], [timer, daemon, timer2]):
+                sibs = list(reversed(sibs)) if order else sibs
+                handlers = [dict(id='c1', on='create', script=['ok']), dict(id='u1', on='update', script=['ok'])] + sibs
+                out.append(SpawnedPatchScenario(handlers=handlers, settings=st, horizon=14.5, user=[(1.0, 'create', 'a'), (6.0, 'status', 'a', 1)]))
+    return out
+
+
 def run(tier: str, seed: int) -> CheckResult:
     base, deep = scenarios(tier)
     loop = _loop_scenarios()
     if tier == 'quick':
-        groups = [('one-foreign-write+injected-answers', base, 2, 50.0), ('two-foreign-writes', deep, 2, 40.0), ('carry-over-in-the-loop', loop, 2, 40.0), ('discovered-status-subresource', discovered_scenarios(), 0, 20.0)]
+        groups = [('one-foreign-write+injected-answers', base, 2, 50.0), ('two-foreign-writes', deep, 2, 40.0), ('carry-over-in-the-loop', loop, 2, 40.0), ('discovered-status-subresource', discovered_scenarios(), 0, 20.0), ('spawned-siblings', _spawned_scenarios(), 1, 30.0)]
     else:
-        groups = [('one-foreign-write+injected-answers', base, 3, 600.0), ('two-foreign-writes', deep, 3, 600.0), ('carry-over-in-the-loop', loop, 3, 600.0), ('discovered-status-subresource', discovered_scenarios(), 1, 60.0)]
+        groups = [('one-foreign-write+injected-answers', base, 3, 600.0), ('two-foreign-writes', deep, 3, 600.0), ('carry-over-in-the-loop', loop, 3, 600.0), ('discovered-status-subresource', discovered_scenarios(), 1, 60.0), ('spawned-siblings', _spawned_scenarios(), 2, 600.0)]
     stats, viols, info, nscen = run_groups(groups, seed=seed)
     return CheckResult(
         prop='C08', tier=tier, seed=seed, stats=stats, violations=viols, scenarios=nscen,
@@ -495,6 +566,9 @@ def run(tier: str, seed: int) -> CheckResult:
 def scenario_from(name: str, params: dict[str, Any]) -> Scenario:
     if name == 'c08-discovered':
         return DiscoveredScenario(**params)
+    if name == 'c08-spawned':
+        _spawned_scenarios()
+        return globals()['SpawnedPatchScenario'](**params)
     if name == 'c08-loop':
         _loop_scenarios()
         return globals()['CarryOverScenario'](**params)
